@@ -186,6 +186,8 @@ def run(ctx):
     n = 24 if quick else 600
     for i in range(n):
         cases.append(D.gen_case(ctx.rng, "r%d" % i, twins=(i % 8 == 7)))
+    for i in range(16 if quick else 400):
+        cases.append(D.gen_vm_case(ctx.rng, "vm%d" % i))
     procs_p = [1, 16, 1] if quick else [1, 16, 1, 16, 4]
     procs_v = [16, 1]
     prods = run_mode(ctx, binp, "produce", [D.strip(c) for c in cases], "produce", procs_p)
